@@ -403,7 +403,19 @@ pub fn eval<D: Dom>(c: &Case<D>, mode: Mode, o: &mut Out) -> Evaluated {
                 }
             }
         }
-        Mode::C08 | Mode::C05 => {}
+        Mode::C08 => {
+            for host in &c.hosts {
+                if D::naive(&c.pats, host).is_none() {
+                    o.violation(format!("{}: NaiveManyMatcher panicked on host {}", D::NAME, D::host_s(host)), replay.clone());
+                }
+                for p in &c.pats {
+                    if D::single(p, host).is_none() {
+                        o.violation(format!("{}: SinglePatternMatcher panicked on host {}", D::NAME, D::host_s(host)), replay.clone());
+                    }
+                }
+            }
+        }
+        Mode::C05 => {}
     }
     Evaluated { n_states_max, any_occurrence: any_occ }
 }
@@ -427,6 +439,20 @@ pub fn run_mode<D: Dom>(mode: Mode, tier: Tier, rng: &mut Rng, n_quick: usize, n
         let s = sexp::parse(line).unwrap();
         if s.as_list()[2].as_str() == D::NAME {
             eval::<D>(&Case::from_s(&s), mode, o);
+        }
+    }
+    if mode == Mode::C08 {
+        // the degenerate stream: empty set, empty patterns, every degenerate host
+        let mut sets: Vec<Vec<D::Pat>> = vec![vec![]];
+        for _ in 0..40 {
+            let mut ps: Vec<D::Pat> = (0..rng.range(1, 3)).map(|_| D::gen_pat(rng)).collect();
+            ps.retain(|p| D::pat_size(p) <= 1);
+            sets.push(ps);
+        }
+        for pats in sets {
+            let c = Case::<D> { pats, hosts: D::degenerate_hosts(), heurs: vec![Heur::Never, Heur::Default, Heur::Seq(vec![true, false, true])] };
+            eval::<D>(&c, mode, o);
+            o.count("stream", "degenerate");
         }
     }
     let n = if tier == Tier::Thorough { n_thorough } else { n_quick };
